@@ -1816,6 +1816,8 @@ def _cases(ctx):
             feats["keyframes"] = False
             feats["replicate"] = False
             feats["no_mass_attrs"] = True
+        if feats["alignfree"]:
+            feats["no_mass_attrs"] = True     # alignfree re-derives mesh geom poses from the mesh inertia; with the omitted mass attributes the two effects overlap
         if feats["frame_interleave"] and feats["default_key"]:
             # each of the two writer defects (frame children re-ordered; default keyframe dropped) is confirmed per case on its own;
             # their combination re-orders elements AND shifts the keyframes, which the per-mechanism confirmations cannot separate,
